@@ -66,7 +66,9 @@ def St.afterLoop (s : St) (pto now : Int) : St :=
 def St.onPacketReceived (s : St) (t : Int) : St :=
   { s with lastPacketReceivedTime := t, firstAESent := 0, keepAlivePingSent := false }
 
-/-- an ack-eliciting packet was sent at `t` -/
+/-- a packet the code counts as ack-eliciting was sent at `t` (registerPackedShortHeaderPacket counts STREAM
+    frames, sendPackedCoalescedPacket — PTO probes — counts control frames only: known finding
+    C17-stream-only-probe-idle-restart) -/
 def St.onAckElicitingSent (s : St) (t : Int) : St :=
   if s.firstAESent = 0 then { s with firstAESent := t } else s
 
